@@ -497,7 +497,10 @@ class Evaluator:
         if isinstance(target, ast.Name):
             self.locals[target.id] = value
         elif isinstance(target, (ast.Tuple, ast.List)):
-            vals = list(value)
+            try:
+                vals = list(value)
+            except TypeError:
+                raise Raised("TypeError")  # unpacking a non-iterable: the program raises too
             star = [i for i, t in enumerate(target.elts) if isinstance(t, ast.Starred)]
             if star:
                 i = star[0]
